@@ -71,7 +71,7 @@ Definition below (fresh : var) (l : list var) : Prop := forall v, In v l -> (v <
 Definition rule_wf (f : scope -> op -> option (list op)) (fresh : var) : Prop :=
   forall Sc D o ops,
     f Sc o = Some ops ->
-    wf_op D o = true -> NoDup (alldefs_op o) -> disj D (alldefs_op o) -> incl (map fst Sc) D ->
+    wf_op D o = true -> NoDup (alldefs_op o) -> disj D (alldefs_op o) -> closedI D Sc ->
     below fresh D -> below fresh (vars_op o) ->
     push D o = D /\
     wf_block D ops = true /\ NoDup (alldefs ops) /\
@@ -225,7 +225,7 @@ Proof.
   - cbn [wf_block push]. rewrite wf_op_For. cbn [wf_op].
     rewrite andb_true_r.
     repeat (apply andb_true_iff; split).
-    + apply forallb_forall. intros u Hu. rewrite forallb_forall in G. apply memb_In, Hincl, in_scope_In, G. exact Hu.
+    + apply forallb_forall. intros u Hu. rewrite forallb_forall in G. apply memb_In, (closedI_dom _ _ _ Hincl), in_scope_In, G. exact Hu.
     + apply negb_true_iff, memb_not_In. exact HdD.
     + apply memb_In. right; exact Hlb.
     + apply memb_In. right; exact Hub.
@@ -411,18 +411,294 @@ Proof.
     assert ((v < fresh)%nat) by (apply Hbv; right; apply in_or_app; right; apply in_or_app; right; exact Hv). lia.
 Qed.
 
+(* ---- closedness of scopes without an environment *)
+Lemma closed_after_block b : forall D Sc,
+  wf_block D b = true -> closedI D Sc -> closedI (scope_after D b) (defs_top b ++ Sc).
+Proof.
+  induction b as [|o b IH]; intros D Sc Hwf Hc; [exact Hc|].
+  rewrite wf_block_cons in Hwf. apply andb_true_iff in Hwf as [H1 H2].
+  assert (Hc1 : closedI (push D o) (defs_top [o] ++ Sc)).
+  { destruct o as [d p|i a|iv lb ub st body]; cbn [defs_top app push]; try exact Hc.
+    cbn [wf_op] in H1. apply andb_true_iff in H1 as [Hu _].
+    intros v q [Heq|Hin].
+    - inversion Heq; subst v q. split; [left; reflexivity|].
+      intros u Hu2. right. eapply forallb_memb_In; eassumption.
+    - destruct (Hc v q Hin) as [Ha Hb]. split; [right; exact Ha|intros u Hu2; right; apply Hb; exact Hu2]. }
+  pose proof (IH _ _ H2 Hc1) as Hc2.
+  cbn [scope_after fold_left]. fold (scope_after (push D o) b). rewrite defs_top_cons.
+  intros v p Hin. apply Hc2. rewrite !in_app_iff in *. tauto.
+Qed.
+
+(* ---- substitution of uses: syntactic facts *)
+Lemma uses_sb_p d w p : uses_p (sb_p d w p) = map (sbv d w) (uses_p p).
+Proof.
+  destruct p as [z|k a b|rs|s i|sz|s sz]; cbn [uses_p sb_p map]; try reflexivity.
+  - induction rs as [|l rs IH]; [reflexivity|]. cbn [map flat_map fst snd]. rewrite map_app, IH.
+    f_equal. rewrite !map_map. reflexivity.
+  - induction sz as [|x sz IH]; [reflexivity|]. cbn [map flat_map]. rewrite map_app, IH. f_equal. destruct x; reflexivity.
+  - f_equal. induction sz as [|x sz IH]; [reflexivity|]. cbn [map flat_map]. rewrite map_app, IH. f_equal. destruct x; reflexivity.
+Qed.
+
+Lemma alldefs_subst_op d w o : alldefs_op (subst_op d w o) = alldefs_op o.
+Proof.
+  induction o as [x p|i a|iv lb ub st body IH] using op_ind'; cbn [subst_op alldefs_op]; try reflexivity.
+  f_equal. induction IH as [|o b Ho _ IHb]; [reflexivity|]. cbn [map flat_map]. rewrite Ho, IHb. reflexivity.
+Qed.
+Lemma alldefs_subst d w b : alldefs (map (subst_op d w) b) = alldefs b.
+Proof. unfold alldefs. induction b as [|o b IH]; [reflexivity|]. cbn [map flat_map]. rewrite alldefs_subst_op, IH. reflexivity. Qed.
+
+Lemma sbv_cases d w u : sbv d w u = u \/ sbv d w u = w.
+Proof. unfold sbv. destruct (Nat.eqb u d); auto. Qed.
+Lemma sbv_other d w u : u <> d -> sbv d w u = u.
+Proof. intros H. unfold sbv. destruct (Nat.eqb u d) eqn:E; [apply Nat.eqb_eq in E; contradiction|reflexivity]. Qed.
+
+Lemma vars_subst_op d w o : forall v, In v (vars_op (subst_op d w o)) -> In v (vars_op o) \/ v = w.
+Proof.
+  induction o as [x p|i a|iv lb ub st body IH] using op_ind'; intros v; cbn [subst_op vars_op].
+  - rewrite uses_sb_p. intros [<-|Hin]; [left; left; reflexivity|].
+    apply in_map_iff in Hin as [u [Hu Hin]]. destruct (sbv_cases d w u) as [E|E]; rewrite E in Hu; subst; [left; right; exact Hin|right; reflexivity].
+  - intros Hin. apply in_map_iff in Hin as [u [Hu Hin]].
+    destruct (sbv_cases d w u) as [E|E]; rewrite E in Hu; subst; [left; exact Hin|right; reflexivity].
+  - intros [<-|[Hq|[Hq|[Hq|Hin]]]].
+    + left. left. reflexivity.
+    + destruct (sbv_cases d w lb) as [E|E]; rewrite E in Hq; subst; [left; cbn; auto|right; reflexivity].
+    + destruct (sbv_cases d w ub) as [E|E]; rewrite E in Hq; subst; [left; cbn; auto|right; reflexivity].
+    + destruct (sbv_cases d w st) as [E|E]; rewrite E in Hq; subst; [left; cbn; auto|right; reflexivity].
+    + apply in_flat_map in Hin as [o' [Ho' Hv]]. apply in_map_iff in Ho' as [o [<- Ho]].
+      rewrite Forall_forall in IH. destruct (IH o Ho v Hv) as [Hq|Hq]; [left|right; exact Hq].
+      cbn. do 4 right. apply in_flat_map. exists o. split; assumption.
+Qed.
+Lemma vars_subst d w b v : In v (vars_of (map (subst_op d w) b)) -> In v (vars_of b) \/ v = w.
+Proof.
+  unfold vars_of. intros Hin. apply in_flat_map in Hin as [o' [Ho' Hv]]. apply in_map_iff in Ho' as [o [<- Ho]].
+  destruct (vars_subst_op d w o v Hv) as [Hq|Hq]; [left|right; exact Hq]. apply in_flat_map. exists o. split; assumption.
+Qed.
+
+(* the substituted block is well scoped in D2 when every name of D1 is mapped into D2 and D2 does not
+   contain a name the block defines *)
+Definition op_wf_subst (d w : var) (o : op) := forall D1 D2,
+  wf_op D1 o = true -> (forall u, In u D1 -> In (sbv d w u) D2) ->
+  (forall x, In x (alldefs_op o) -> ~ In x D2) -> ~ In d (alldefs_op o) -> NoDup (alldefs_op o) ->
+  wf_op D2 (subst_op d w o) = true.
+
+Lemma forallb_memb_subst d w D1 D2 l :
+  forallb (fun v => memb v D1) l = true -> (forall u, In u D1 -> In (sbv d w u) D2) ->
+  forallb (fun v => memb v D2) (map (sbv d w) l) = true.
+Proof.
+  intros H Hi. apply forallb_forall. intros v Hv. apply in_map_iff in Hv as [u [<- Hu]].
+  rewrite forallb_forall in H. apply memb_In, Hi, memb_In, H. exact Hu.
+Qed.
+
+Lemma block_wf_subst_of_ops d w b : Forall (op_wf_subst d w) b -> forall D1 D2,
+  wf_block D1 b = true -> (forall u, In u D1 -> In (sbv d w u) D2) ->
+  (forall x, In x (alldefs b) -> ~ In x D2) -> ~ In d (alldefs b) -> NoDup (alldefs b) ->
+  wf_block D2 (map (subst_op d w) b) = true.
+Proof.
+  induction 1 as [|o b Ho _ IH]; intros D1 D2 Hwf Hi Hx Hd Hnd; [reflexivity|].
+  cbn [map]. rewrite wf_block_cons in *. apply andb_true_iff in Hwf as [H1 H2].
+  rewrite alldefs_cons in Hx, Hd, Hnd. rewrite in_app_iff in Hd.
+  apply andb_true_iff. split.
+  - apply (Ho D1 D2 H1 Hi); [|tauto|apply (NoDup_app_l _ _ Hnd)]. intros x Hin. apply Hx. apply in_or_app. left; exact Hin.
+  - apply (IH (push D1 o) (push D2 (subst_op d w o)) H2); [| |tauto|apply (NoDup_app_r _ _ Hnd)].
+    + intros u Hu. destruct o as [x p| |]; cbn [push subst_op] in *; try (apply Hi; exact Hu).
+      destruct Hu as [<-|Hu]; [|right; apply Hi; exact Hu].
+      left. symmetry. apply sbv_other. intros ->. apply Hd. left. left. reflexivity.
+    + intros x Hin Hx2. destruct o as [y p| |]; cbn [push subst_op] in Hx2;
+        try (apply (Hx x); [apply in_or_app; right; exact Hin|exact Hx2]).
+      destruct Hx2 as [<-|Hx2]; [|apply (Hx x); [apply in_or_app; right; exact Hin|exact Hx2]].
+      cbn [alldefs_op app] in Hnd. inversion Hnd; contradiction.
+Qed.
+
+Lemma wf_subst_op d w o : op_wf_subst d w o.
+Proof.
+  induction o as [x p|i a|iv lb ub st body IH] using op_ind'; intros D1 D2 Hwf Hi Hx Hd Hnd.
+  - cbn [wf_op subst_op] in *. apply andb_true_iff in Hwf as [H1 H2]. rewrite uses_sb_p.
+    apply andb_true_iff. split; [eapply forallb_memb_subst; eassumption|].
+    apply negb_true_iff, memb_not_In. apply Hx. left. reflexivity.
+  - cbn [wf_op subst_op] in *. eapply forallb_memb_subst; eassumption.
+  - cbn [subst_op]. rewrite wf_op_For in *. repeat (apply andb_true_iff in Hwf as [Hwf ?]).
+    cbn [alldefs_op] in Hx, Hd, Hnd. fold (alldefs body) in *.
+    inversion Hnd as [|? ? Hniv Hndb]; subst.
+    repeat (apply andb_true_iff; split).
+    + apply memb_In, Hi, memb_In. assumption.
+    + apply memb_In, Hi, memb_In. assumption.
+    + apply memb_In, Hi, memb_In. assumption.
+    + apply negb_true_iff, memb_not_In. apply Hx. left. reflexivity.
+    + apply (block_wf_subst_of_ops d w body IH (iv :: D1) (iv :: D2)); try assumption.
+      * intros u [<-|Hu]; [left; symmetry; apply sbv_other; intros ->; apply Hd; left; reflexivity|right; apply Hi; exact Hu].
+      * intros x Hin [<-|Hx2]; [contradiction|]. apply (Hx x); [right; exact Hin|exact Hx2].
+      * intros Hin. apply Hd. right. exact Hin.
+Qed.
+
+Lemma wf_subst d w b D1 D2 :
+  wf_block D1 b = true -> (forall u, In u D1 -> In (sbv d w u) D2) ->
+  (forall x, In x (alldefs b) -> ~ In x D2) -> ~ In d (alldefs b) -> NoDup (alldefs b) ->
+  wf_block D2 (map (subst_op d w) b) = true.
+Proof. apply block_wf_subst_of_ops. apply Forall_forall. intros o _. apply wf_subst_op. Qed.
+
+(* ---- MoveMemrefDims *)
+Lemma move_dim_wf fresh j : rule_wf (fun Sc o => move_dim Sc fresh j o) fresh.
+Proof.
+  intros Sc D o ops Hr Hwf Hnd Hdj Hcl HbD Hbo.
+  unfold move_dim in Hr.
+  destruct o as [| |iv lb ub st body]; try discriminate.
+  destruct (split_at j body) as [[[pre x] post]|] eqn:Esp; [|discriminate].
+  destruct x as [d p| |]; try discriminate. destruct p as [| | |src idx| |]; try discriminate.
+  apply split_at_spec in Esp as [-> _].
+  set (Sin := defs_top pre) in *.
+  destruct (cst_of (Sin ++ Sc) idx) as [iz|] eqn:Eidx; [|discriminate].
+  destruct (negb (forallb (dim_uses_ok d) post)); [discriminate|].
+  destruct (resolve_dim 8 Sin Sc src iz) as [r|] eqn:Eres; [|discriminate].
+  rewrite wf_op_For in Hwf. repeat (apply andb_true_iff in Hwf as [Hwf ?]).
+  match goal with Hb : wf_block (iv :: D) _ = true |- _ =>
+    rewrite wf_block_app, wf_block_cons in Hb; apply andb_true_iff in Hb as [Hwpre Hb];
+    apply andb_true_iff in Hb as [Hwd Hwpost] end.
+  cbn [push] in Hwpost. set (Dp := scope_after (iv :: D) pre) in *.
+  cbn [wf_op uses_p forallb] in Hwd. rewrite andb_true_r in Hwd.
+  apply andb_true_iff in Hwd as [Hwd HdDp]. apply andb_true_iff in Hwd as [Hsrc Hidx].
+  apply memb_In in Hsrc. apply negb_true_iff, memb_not_In in HdDp.
+  assert (Hlb : In lb D) by (apply memb_In; assumption).
+  assert (Hub : In ub D) by (apply memb_In; assumption).
+  assert (Hst : In st D) by (apply memb_In; assumption).
+  assert (HivD : ~ In iv D) by (apply memb_not_In, negb_true_iff; assumption).
+  cbn [alldefs_op] in Hnd, Hdj. fold (alldefs (pre ++ Def d (PDim src idx) :: post)) in *.
+  rewrite alldefs_app, alldefs_cons in Hnd, Hdj. cbn [alldefs_op app] in Hnd, Hdj.
+  inversion Hnd as [|? ? Hniv Hnd']; subst.
+  pose proof (NoDup_remove_1 _ _ _ Hnd') as Hnd2.
+  pose proof (NoDup_remove_2 _ _ _ Hnd') as Hdnot.
+  assert (Hdpost : ~ In d (alldefs post)) by (intros Hin; apply Hdnot, in_or_app; right; exact Hin).
+  assert (Hndpost : NoDup (alldefs post)) by (apply (NoDup_app_r _ _ Hnd2)).
+  assert (Hbvars : forall v, In v (iv :: lb :: ub :: st :: vars_of pre ++ (d :: src :: idx :: nil) ++ vars_of post) -> (v < fresh)%nat).
+  { intros v Hv. apply Hbo. cbn [vars_op]. fold (vars_of (pre ++ Def d (PDim src idx) :: post)).
+    rewrite vars_of_app, vars_of_cons. cbn [vars_op uses_p]. exact Hv. }
+  assert (Hbpost : forall v, In v (alldefs post) -> (v < fresh)%nat).
+  { intros v Hv. apply Hbvars. do 4 right. apply in_or_app. right. apply in_or_app. right. apply alldefs_vars. exact Hv. }
+  assert (Hbpre : forall v, In v (alldefs pre) -> (v < fresh)%nat).
+  { intros v Hv. apply Hbvars. do 4 right. apply in_or_app. left. apply alldefs_vars. exact Hv. }
+  assert (Hivf : (iv < fresh)%nat) by (apply Hbvars; left; reflexivity).
+  (* the loop with the dim erased, in a scope D0 that contains D and the replacement w *)
+  assert (Hloop : forall D0 w, (forall v, In v D -> In v D0) -> In w D0 -> ~ In iv D0 ->
+             (forall x, In x D0 -> ~ In x D -> (fresh <= x)%nat) -> (w <> iv) ->
+             wf_op D0 (For iv lb ub st (pre ++ map (subst_op d w) post)) = true).
+  { intros D0 w HD Hw Hiv0 Hextra Hwiv. rewrite wf_op_For.
+    repeat (apply andb_true_iff; split).
+    - apply memb_In, HD. exact Hlb.
+    - apply memb_In, HD. exact Hub.
+    - apply memb_In, HD. exact Hst.
+    - apply negb_true_iff, memb_not_In. exact Hiv0.
+    - rewrite wf_block_app. apply andb_true_iff. split.
+      + apply (wf_weaken pre (iv :: D)); [exact Hwpre| |].
+        * intros v [<-|Hv]; [left; reflexivity|right; apply HD; exact Hv].
+        * intros v [<-|Hv] Hn Hin; [apply Hn; left; reflexivity|].
+          assert (Hnq : ~ In v D) by (intros Hq; apply Hn; right; exact Hq).
+          specialize (Hextra v Hv Hnq). specialize (Hbpre v Hin). lia.
+      + apply (wf_subst d w post (d :: Dp)); try assumption.
+        * intros u [<-|Hu].
+          -- unfold sbv. rewrite Nat.eqb_refl. apply scope_after_In. left. right. exact Hw.
+          -- rewrite sbv_other by (intros ->; contradiction). apply scope_after_In.
+             apply scope_after_In in Hu as [[<-|Hu]|Hu]; [left; left; reflexivity|left; right; apply HD; exact Hu|right; exact Hu].
+        * intros x Hin Hx2. apply scope_after_In in Hx2 as [[<-|Hx2]|Hx2].
+          -- apply Hniv. apply in_or_app. right. right. exact Hin.
+          -- destruct (in_dec Nat.eq_dec x D) as [Hq|Hq].
+             ++ apply (Hdj _ Hq). right. apply in_or_app. right. right. exact Hin.
+             ++ specialize (Hextra x Hx2 Hq). specialize (Hbpost x Hin). lia.
+          -- apply defs_top_alldefs in Hx2. apply (NoDup_app_disj _ _ _ Hnd2 Hx2 Hin). }
+  assert (Halld : forall w, alldefs [For iv lb ub st (pre ++ map (subst_op d w) post)] = iv :: alldefs pre ++ alldefs post).
+  { intros w. unfold alldefs. cbn [flat_map alldefs_op]. rewrite app_nil_r, flat_map_app. f_equal. f_equal. apply alldefs_subst. }
+  assert (Hsubold : forall v, In v (iv :: alldefs pre ++ alldefs post) -> In v (iv :: alldefs pre ++ d :: alldefs post)).
+  { intros v [<-|Hv]; [left; reflexivity|right]. apply in_app_or in Hv as [Hv|Hv]; apply in_or_app; [left|right; right]; exact Hv. }
+  assert (Hbnew : forall w, (w < S fresh)%nat -> below (S (S (S fresh))) (vars_of [For iv lb ub st (pre ++ map (subst_op d w) post)])).
+  { intros w Hw v Hv. unfold vars_of in Hv. cbn [flat_map vars_op] in Hv. rewrite app_nil_r in Hv.
+    fold (vars_of (pre ++ map (subst_op d w) post)) in Hv. rewrite vars_of_app in Hv.
+    assert ((v < S fresh)%nat); [|lia].
+    destruct Hv as [<-|[<-|[<-|[<-|Hv]]]]; try (assert ((v < fresh)%nat) by (apply Hbvars; cbn; auto); lia).
+    - assert ((iv < fresh)%nat) by (apply Hbvars; cbn; auto). lia.
+    - assert ((lb < fresh)%nat) by (apply Hbvars; cbn; auto). lia.
+    - assert ((ub < fresh)%nat) by (apply Hbvars; cbn; auto). lia.
+    - assert ((st < fresh)%nat) by (apply Hbvars; cbn; auto). lia.
+    - apply in_app_or in Hv as [Hv|Hv].
+      + assert ((v < fresh)%nat) by (apply Hbvars; do 4 right; apply in_or_app; left; exact Hv). lia.
+      + destruct (vars_subst _ _ _ _ Hv) as [Hq|->]; [|exact Hw].
+        assert ((v < fresh)%nat) by (apply Hbvars; do 4 right; apply in_or_app; right; apply in_or_app; right; exact Hq). lia. }
+  assert (Hnewop : forall E, (forall u, In u (uses_p E) -> In u D) ->
+     [Def fresh E; For iv lb ub st (pre ++ map (subst_op d fresh) post)] = ops ->
+     push D (For iv lb ub st (pre ++ Def d (PDim src idx) :: post)) = D /\
+     wf_block D ops = true /\ NoDup (alldefs ops) /\
+     (forall v, In v (alldefs ops) -> In v (iv :: alldefs pre ++ d :: alldefs post) \/ (fresh <= v)%nat) /\
+     (forall v, In v (scope_after D ops) -> In v D \/ In v (iv :: alldefs pre ++ d :: alldefs post) \/ (fresh <= v)%nat) /\
+     below (S (S (S fresh))) (vars_of ops)).
+  { intros E HE <-. split; [reflexivity|]. split; [|split; [|split; [|split]]].
+    - cbn [wf_block push]. rewrite andb_true_r. apply andb_true_iff. split.
+      + cbn [wf_op]. apply andb_true_iff. split.
+        * apply forallb_forall. intros u Hu. apply memb_In, HE. exact Hu.
+        * apply negb_true_iff, memb_not_In. intros Hin. specialize (HbD _ Hin). lia.
+      + apply Hloop.
+        * intros v Hv. right. exact Hv.
+        * left. reflexivity.
+        * intros [Hq|Hq]; [lia|contradiction].
+        * intros x [<-|Hx] Hn; [lia|contradiction].
+        * lia.
+    - change (alldefs (Def fresh E :: [For iv lb ub st (pre ++ map (subst_op d fresh) post)]))
+        with (fresh :: alldefs [For iv lb ub st (pre ++ map (subst_op d fresh) post)]).
+      rewrite Halld. constructor.
+      + intros Hin. apply Hsubold in Hin. destruct Hin as [Hq|Hq]; [lia|].
+        apply in_app_or in Hq as [Hq|[Hq|Hq]].
+        * specialize (Hbpre _ Hq). lia.
+        * assert ((d < fresh)%nat) by (apply Hbvars; do 4 right; apply in_or_app; right; left; reflexivity). lia.
+        * specialize (Hbpost _ Hq). lia.
+      + constructor; [|exact Hnd2]. intros Hin. apply Hniv. apply in_app_or in Hin as [Hq|Hq]; apply in_or_app; [left|right; right]; exact Hq.
+    - change (alldefs (Def fresh E :: [For iv lb ub st (pre ++ map (subst_op d fresh) post)]))
+        with (fresh :: alldefs [For iv lb ub st (pre ++ map (subst_op d fresh) post)]).
+      rewrite Halld. intros v [<-|Hv]; [right; lia|left; apply Hsubold; exact Hv].
+    - cbn [scope_after fold_left push]. intros v [<-|Hv]; [right; right; lia|left; exact Hv].
+    - intros v Hv. rewrite vars_of_cons in Hv. apply in_app_or in Hv as [Hv|Hv].
+      + cbn [vars_op] in Hv. destruct Hv as [<-|Hv]; [lia|]. specialize (HbD _ (HE _ Hv)). lia.
+      + apply (Hbnew fresh); [lia|exact Hv]. }
+  destruct r as [z|v|s i|v c]; try discriminate.
+  - apply (Hnewop (PConst z)); [intros u []|]. inversion Hr. reflexivity.
+  - destruct (in_scope Sc v) eqn:Ev; [|discriminate]. inversion Hr; subst ops; clear Hr.
+    assert (HvD : In v D) by (apply (closedI_dom _ _ _ Hcl), in_scope_In; exact Ev).
+    split; [reflexivity|]. split; [|split; [|split; [|split]]].
+    + cbn [wf_block push]. rewrite andb_true_r. apply Hloop; try assumption.
+      * intros u Hu; exact Hu.
+      * intros x Hx Hn. contradiction.
+      * intros ->. contradiction.
+    + rewrite Halld. constructor; [|exact Hnd2].
+      intros Hin. apply Hniv. apply in_app_or in Hin as [Hq|Hq]; apply in_or_app; [left|right; right]; exact Hq.
+    + rewrite Halld. intros u Hu. left. apply Hsubold. exact Hu.
+    + cbn [scope_after fold_left push]. intros u Hu. left. exact Hu.
+    + apply Hbnew. specialize (HbD _ HvD). lia.
+  - destruct (newdim_idx 8 Sin Sc src idx) as [ix|] eqn:Eix; [|discriminate].
+    destruct (in_scope Sc ix && negb (in_scope Sin s) && negb (Nat.eqb s iv)) eqn:G; [|discriminate].
+    apply andb_true_iff in G as [G Gsiv]. apply andb_true_iff in G as [Gix GsSin].
+    apply negb_true_iff in Gsiv. apply Nat.eqb_neq in Gsiv.
+    assert (HixD : In ix D) by (apply (closedI_dom _ _ _ Hcl), in_scope_In; exact Gix).
+    assert (HsD : In s D).
+    { assert (Hcl' : closedI Dp (Sin ++ Sc)).
+      { apply closed_after_block; [exact Hwpre|]. apply (closedI_mono D); [intros u Hu; right; exact Hu|exact Hcl]. }
+      destruct (resolve_newdim_src 8 Sin Sc src iz s i (fun v => In v Dp) Eres Hsrc) as [HsDp Hsnone].
+      - intros v0 s' i' Hl. assert (Hin : In (v0, PDim s' i') (Sin ++ Sc)) by (apply in_or_app; left; apply lookup_In; exact Hl).
+        destruct (Hcl' _ _ Hin) as [_ Hu]. apply Hu. left. reflexivity.
+      - apply scope_after_In in HsDp as [[Hq|Hq]|Hq]; [congruence|exact Hq|].
+        exfalso. destruct (in_lookup_some _ _ Hq) as [p Hp]. rewrite lookup_app in Hsnone. fold Sin in Hp.
+        rewrite Hp in Hsnone. discriminate. }
+    apply (Hnewop (PDim s ix)); [|inversion Hr; reflexivity].
+    intros u [<-|[<-|[]]]; assumption.
+Qed.
+
 Lemma apply_rule_wf r fresh : rule_wf (fun Sc o => apply_rule r Sc fresh o) fresh.
 Proof.
-  destruct r as [|j|j]; cbn [apply_rule].
+  destruct r as [|j|j|j]; cbn [apply_rule].
   - apply change_step_wf.
   - apply merge_wf.
   - apply hoist_wf.
+  - apply move_dim_wf.
 Qed.
 
 (* ------------------------------------------------------------------ context lemma for well-formedness *)
 Lemma apply_at_wf f fresh : rule_wf f fresh ->
   forall path D Sc b b',
-    wf_block D b = true -> NoDup (alldefs b) -> disj D (alldefs b) -> incl (map fst Sc) D ->
+    wf_block D b = true -> NoDup (alldefs b) -> disj D (alldefs b) -> closedI D Sc ->
     below fresh D -> below fresh (vars_of b) ->
     apply_at f path Sc b = Some b' ->
     wf_block D b' = true /\ NoDup (alldefs b') /\
@@ -436,9 +712,7 @@ Proof.
   apply andb_true_iff in Hwf as [Hwpre Hwf]. apply andb_true_iff in Hwf as [Hwo Hwpost].
   rewrite alldefs_app, alldefs_cons in Hnd, Hdj.
   set (D' := scope_after D pre) in *. set (Sc' := defs_top pre ++ Sc) in *.
-  assert (Hincl' : incl (map fst Sc') D').
-  { intros v Hin. unfold Sc' in Hin. rewrite map_app in Hin. apply scope_after_In.
-    apply in_app_or in Hin as [Hin|Hin]; [right; exact Hin|left; apply Hincl; exact Hin]. }
+  pose proof (closed_after_block pre D Sc Hwpre Hincl) as Hincl'. fold D' in Hincl'. fold Sc' in Hincl'.
   assert (Hbpre : below fresh (vars_of pre)).
   { intros v Hv. apply Hbb. rewrite vars_of_app. apply in_or_app. left; exact Hv. }
   assert (Hbo : below fresh (vars_op o)).
@@ -486,7 +760,7 @@ Proof.
     destruct (IH (iv :: D') Sc' body body') as (Hwb' & Hndb' & Hsub'); try assumption.
     + intros v [<-|Hin]; [exact Hniv|].
       intros Hb2. apply (Hdj' v Hin). right. apply in_or_app. left. exact Hb2.
-    + intros v Hin. right. apply Hincl'. exact Hin.
+    + apply (closedI_mono D'); [intros v Hv; right; exact Hv|exact Hincl'].
     + intros v [<-|Hv]; [exact Hivf|apply HbD'; exact Hv].
     + intros v Hv. apply Hbo. cbn. do 4 right. exact Hv.
     + cbn [push] in Hwpost.
@@ -535,10 +809,10 @@ Proof.
   assert (Hdj : disj args (alldefs b)) by (intros v Hv; apply (NoDup_app_disj _ _ _ Hn Hv)).
   split.
   - intros e. apply (apply_at_trace _ fresh (apply_rule_sound r fresh) path args [] b b' e); try assumption.
-    + intros v [].
-    + intros v z Hc. discriminate.
+    + intros v p0 [].
+    + intros v p0 [].
   - destruct (apply_at_wf _ fresh (apply_rule_wf r fresh) path args [] b b') as (H1 & H2 & H3); try assumption.
-    + intros v [].
+    + intros v p0 [].
     + unfold wf_prog. rewrite H1. cbn [andb]. apply NoDup_nodupb. apply NoDup_app_iff.
       split; [apply (NoDup_app_l _ _ Hn)|]. split; [exact H2|].
       intros v Hv Hin. destruct (H3 v Hin) as [Hq|Hq]; [apply (Hdj v Hv Hq)|specialize (HbD v Hv); lia].
